@@ -5,7 +5,7 @@ CONSTANTS MaxObj = 1
  MaxAttach = 3
  WriteUnitVoltage = TRUE
  WriteEveryTaggedDistributed = TRUE
- LoadsInKindOrder = FALSE
+ LoadsInKindOrder = TRUE
 INIT Init
 NEXT Next
 INVARIANT Dump
